@@ -1646,17 +1646,19 @@ class Controller:
             #     - Stop them
             
             def closure(x):
-                with self.opt_lock:
-                    nodes = self.get_nodes_in_stage(index)
-                    nodes = self._true_nodes_from_identifiers(nodes, False)
-                    current_components = set()
-                    for node in nodes:
-                        current_components = current_components.union([c['component']() for c in nodes[node]])
+                # VV: This used to run under opt_lock, which it does not need: looking the nodes up and stopping the
+                #     components take comp_lock, and kill_all_components() takes the two locks in the opposite order
+                #     (comp_lock, then opt_lock in disable_optimizer) - the two could wait for each other for ever
+                nodes = self.get_nodes_in_stage(index)
+                nodes = self._true_nodes_from_identifiers(nodes, False)
+                current_components = set()
+                for node in nodes:
+                    current_components = current_components.union([c['component']() for c in nodes[node]])
 
-                    self.log.info("CompletionCheck for stage %d returned True, stopping components in same stage" % (
-                        index
-                    ))
-                    self._stopComponents(current_components, False)
+                self.log.info("CompletionCheck for stage %d returned True, stopping components in same stage" % (
+                    index
+                ))
+                self._stopComponents(current_components, False)
 
                 return x
 
